@@ -41,9 +41,15 @@ def main():
     ap.add_argument("--skip-validate", action="store_true")
     a = ap.parse_args()
     src = os.path.abspath(a.src)
-    name = os.path.basename(src).replace("-out", "")
-    patch = f"{src}/patch{a.n}.rebased.diff" if os.path.exists(f"{src}/patch{a.n}.rebased.diff") else f"{src}/patch{a.n}.diff"
-    dm = f"{src}/demo{a.n}.py"
+    if a.n == "-":
+        # a directory of /verif/seeded: patch.diff (or patch.rebased.diff: merged onto later fix: commits), demo.py
+        name = os.path.basename(src)
+        patch = f"{src}/patch.rebased.diff" if os.path.exists(f"{src}/patch.rebased.diff") else f"{src}/patch.diff"
+        dm = f"{src}/demo.py"
+    else:
+        name = os.path.basename(src).replace("-out", "")
+        patch = f"{src}/patch{a.n}.rebased.diff" if os.path.exists(f"{src}/patch{a.n}.rebased.diff") else f"{src}/patch{a.n}.diff"
+        dm = f"{src}/demo{a.n}.py"
     base = "/tmp/seed3eval"
     os.makedirs(base, exist_ok=True)
     wt = f"{base}/{name}-{a.n}"
